@@ -306,6 +306,14 @@ func ruleFieldPathSingular(r *Run) {
 			site++
 			key := fmt.Sprintf("%s/consumer#%d", shortFunc(fn), site)
 			fd := mc.Common().Args[0]
+			// look through a localiser (fieldOf(cur, fd)): it yields the same field of the message's own descriptor
+			for _, o := range p.origins(fd, originOpts{}) {
+				if lc, ok := o.(*ssa.Call); ok {
+					if callee := staticCallee(lc); callee != nil && p.isLocaliser(callee) {
+						fd = lc.Call.Args[1]
+					}
+				}
+			}
 			src := ""
 			for _, o := range p.origins(fd, originOpts{}) {
 				// range element: *(&S[i]) or Extract of Next over S, with S a load of a validated field
@@ -578,5 +586,184 @@ func ruleDescRole(r *Run) {
 	})
 	if n == 0 {
 		r.undecided("createConnHandler", cch.Pos(), "no RecvMsg/Invoke calls found in the proxy closures")
+	}
+}
+
+// ---------------------------------------------------------------------------
+// FD-LOCAL
+// ---------------------------------------------------------------------------
+
+func init() {
+	register(&Rule{Name: "FD-LOCAL", Floor: 6,
+		Doc: "a field descriptor taken from the routing tree (method.vars/body/resp, param.fds: registered once per method name, possibly by another backend) is used on a message only after being localised to that message's own descriptor (a stored descriptor of another registration is foreign to the message: protoreflect panics)",
+		Run: ruleFDLocal})
+}
+
+// localising functions: module functions (m protoreflect.Message, fd FieldDescriptor) FieldDescriptor whose results are fd itself
+// under an identity test against m.Descriptor(), or a lookup in m.Descriptor().Fields().
+func (p *Program) isLocaliser(fn *ssa.Function) bool {
+	if fn == nil || len(fn.Blocks) == 0 || len(fn.Params) != 2 || fn.Signature.Results().Len() != 1 {
+		return false
+	}
+	m, fd := fn.Params[0], fn.Params[1]
+	ok := true
+	nret := 0
+	eachInstr(fn, func(in ssa.Instruction) {
+		rt, isRet := in.(*ssa.Return)
+		if !isRet {
+			return
+		}
+		nret++
+		for _, o := range p.origins(rt.Results[0], originOpts{}) {
+			switch x := o.(type) {
+			case *ssa.Parameter:
+				if x != fd {
+					ok = false
+				}
+			case *ssa.Call:
+				// ByNumber/ByName on m.Descriptor().Fields()
+				bn, isBN := isInvokeNamed(x, "ByNumber", "ByName", "ByJSONName", "ByTextName")
+				if !isBN {
+					ok = false
+					continue
+				}
+				fromM := false
+				if fc, isF := isInvokeNamed(bn.Common().Value, "Fields"); isF {
+					if dc, isD := isInvokeNamed(fc.Common().Value, "Descriptor"); isD {
+						for _, mo := range p.origins(dc.Common().Value, originOpts{}) {
+							if mo == ssa.Value(m) {
+								fromM = true
+							}
+						}
+					}
+				}
+				if !fromM {
+					ok = false
+				}
+			default:
+				ok = false
+			}
+		}
+	})
+	return ok && nret > 0
+}
+
+// throughLocaliser: fieldOf(m, fd) -> fd (the stored descriptor behind a localised one).
+func (p *Program) throughLocaliser(v ssa.Value) ssa.Value {
+	for _, o := range p.origins(v, originOpts{}) {
+		if lc, ok := o.(*ssa.Call); ok {
+			if callee := staticCallee(lc); callee != nil && p.isLocaliser(callee) {
+				return lc.Call.Args[1]
+			}
+		}
+	}
+	return v
+}
+
+func ruleFDLocal(r *Run) {
+	p := r.P
+	stored := map[*types.Var]bool{}
+	for _, spec := range [][2]string{{"method", "body"}, {"method", "resp"}, {"method", "vars"}, {"param", "fds"}} {
+		if f := p.StructField(spec[0], spec[1]); f != nil {
+			stored[f] = true
+		}
+	}
+	// fromStored: fd is an element of a stored list (directly or through a parameter of a helper whose call sites pass stored lists)
+	var fromStored func(fd ssa.Value, fn *ssa.Function, depth int) bool
+	fromStored = func(fd ssa.Value, fn *ssa.Function, depth int) bool {
+		for _, o := range p.origins(fd, originOpts{}) {
+			var seq ssa.Value
+			switch x := o.(type) {
+			case *ssa.UnOp:
+				if ia, ok := x.X.(*ssa.IndexAddr); ok {
+					seq = ia.X
+				}
+			case *ssa.Extract:
+				if nx, ok := x.Tuple.(*ssa.Next); ok {
+					if rg, ok := nx.Iter.(*ssa.Range); ok {
+						seq = rg.X
+					}
+				}
+			}
+			if seq == nil {
+				continue
+			}
+			for _, so := range p.origins(seq, originOpts{}) {
+				if f := loadedField(so); f != nil && stored[f] {
+					return true
+				}
+				if par, ok := so.(*ssa.Parameter); ok && depth < 2 {
+					// helper: look at the call sites
+					idx := -1
+					for i, q := range par.Parent().Params {
+						if q == par {
+							idx = i
+						}
+					}
+					if node := p.CallGraph().Nodes[par.Parent()]; node != nil && idx >= 0 {
+						for _, e := range node.In {
+							if e.Site != nil && idx < len(e.Site.Common().Args) {
+								for _, ao := range p.origins(e.Site.Common().Args[idx], originOpts{}) {
+									if f := loadedField(ao); f != nil && stored[f] {
+										return true
+									}
+								}
+							}
+						}
+					}
+				}
+			}
+		}
+		return false
+	}
+	n := 0
+	for _, fn := range p.ModuleFuncs() {
+		site := 0
+		eachInstr(fn, func(in ssa.Instruction) {
+			c, ok := in.(ssa.CallInstruction)
+			if !ok || !c.Common().IsInvoke() || c.Common().Method.Pkg() == nil || c.Common().Method.Pkg().Path() != protoreflect {
+				return
+			}
+			switch c.Common().Method.Name() {
+			case "Set", "Mutable", "Get", "Has", "Clear", "NewField":
+			default:
+				return
+			}
+			if !strings.HasSuffix(typeString(c.Common().Value.Type()), "protoreflect.Message") {
+				return
+			}
+			fd := c.Common().Args[0]
+			// localised?
+			local := false
+			for _, o := range p.origins(fd, originOpts{}) {
+				if lc, ok := o.(*ssa.Call); ok {
+					if callee := staticCallee(lc); callee != nil && p.isLocaliser(callee) {
+						// the message argument of the localiser is the receiver of this use
+						if lc.Call.Args[0] == c.Common().Value || p.sameValue(lc.Call.Args[0], c.Common().Value) {
+							local = true
+							fd = lc.Call.Args[1]
+						}
+					}
+					if bn, ok := isInvokeNamed(lc, "ByNumber", "ByName", "ByJSONName"); ok {
+						_ = bn
+						local = true // resolved on a descriptor at the point of use (e.g. HttpBody's content_type/data)
+					}
+				}
+			}
+			if !local && !fromStored(fd, fn, 0) {
+				return // not a stored routing descriptor
+			}
+			if local && !fromStored(fd, fn, 0) {
+				return
+			}
+			site++
+			n++
+			key := fmt.Sprintf("%s/%s#%d", shortFunc(fn), c.Common().Method.Name(), site)
+			r.check(local, key, in.Pos(), "the stored descriptor is localised to the message it is used on",
+				"a field descriptor stored in the routing tree is used directly on the message: the tree keeps the descriptors of the FIRST registration of a method name, so with a second backend (or a local service plus a backend) for the same service the message belongs to other descriptors and protoreflect panics ('field descriptor does not belong to this message')")
+		})
+	}
+	if n == 0 {
+		r.undecided("uses of stored field descriptors", token.NoPos, "no use of a routing-tree field descriptor on a message found")
 	}
 }
